@@ -51,8 +51,10 @@ ASSUMPTIONS = [
     "no writes while a run is in progress, except one scripted write to a non-main dataset between two sink calls of a full "
     "sync (ORunMid; covered by the theorems); writes during incremental runs are not modelled",
     "all datasets exist before the first run and are local (no proxy datasets); the job configuration does not change between runs",
-    "the completeness theorems are stated for LatestOnly = false (with LatestOnly the pinned tree AND the simple repairs lose "
-    "previous-run links, finding F18d; the model and the correspondence cover LatestOnly)",
+    "C18_tokens_safe / C18_complete are stated for LatestOnly = false; LatestOnly sources are covered by C18_*_latest under the "
+    "fourth repair (finding F18d: with LatestOnly the pinned tree AND the three repairs alone lose previous-run links)",
+    "link theorem C18_agree_implies_spec: the marker count and the set of ids a FAILED run delivered are taken from the model "
+    "(agreement cannot determine them); for those the executable spec is evaluated on the implementation's observation only",
     "sink failures are the only faults (no process death between sink write and token store; C08 covers that window)",
 ]
 EXHAUSTIVE = {"thorough": False}
